@@ -252,12 +252,12 @@ DRAIN = """    for pattern in fs.active_patterns:
         if pattern.is_accepting():
 """
 V("C14", "drain-unguarded", "fire", (MATCHER, DRAIN, "    for pattern in fs.active_patterns:\n        if pattern.is_accepting():\n"),
-  "pre-fix: overlapping matches at end of input", "drain loop")
+  "pre-fix: overlapping matches at end of input", "find_all/")
 V("C14", "main-guard-le", "fire", (MATCHER, "            if fs.matches and pattern.start < fs.matches[-1].end:\n                continue\n            if len(",
                                   "            if fs.matches and pattern.start <= fs.matches[-1].end:\n                continue\n            if len("),
-  "adjacent matches dropped", "main loop")
+  "adjacent matches dropped", "find_all/")
 V("C14", "main-guard-removed", "fire", (MATCHER, "            if fs.matches and pattern.start < fs.matches[-1].end:\n                continue\n            if len(", "            if len("),
-  "overlapping matches in the main loop", "main loop")
+  "overlapping matches in the main loop", "find_all/")
 V("C14", "guard-positive-form-silent", "silent", (MATCHER, DRAIN, """    for pattern in fs.active_patterns:
         if not fs.matches or pattern.start >= fs.matches[-1].end:
           if pattern.is_accepting():
@@ -267,19 +267,19 @@ VARIANTS[-1]["edits"] = [(MATCHER, DRAIN + "            pattern.end = len(sequen
                           "            if pattern.is_accepting():\n                pattern.end = len(sequence)\n                fs.matches.append(pattern)\n")]
 V("C14", "end-idx-plus1", "fire", (MATCHER, "            if len(pattern.state.transition) == 0 and pattern.is_accepting():\n                pattern.end = idx\n",
                                    "            if len(pattern.state.transition) == 0 and pattern.is_accepting():\n                pattern.end = idx + 1\n"),
-  "end one past the exclusive end", "find_all/end#0")
-V("C14", "drain-end-minus1", "fire", (MATCHER, "pattern.end = len(sequence)\n", "pattern.end = len(sequence) - 1\n"), "last item cut off", "find_all/end#2")
+  "end one past the exclusive end", "find_all/")
+V("C14", "drain-end-minus1", "fire", (MATCHER, "pattern.end = len(sequence)\n", "pattern.end = len(sequence) - 1\n"), "last item cut off", "find_all/")
 V("C14", "report-nonaccepting", "fire", (MATCHER, "            else:\n                if pattern.is_accepting():\n                    pattern.end = idx\n                    fs.matches.append(pattern)\n",
                                          "            else:\n                pattern.end = idx\n                fs.matches.append(pattern)\n"),
-  "attempts that merely got stuck are reported", "accepting")
+  "attempts that merely got stuck are reported", "find_all/")
 V("C14", "report-early", "fire", (MATCHER, "            if len(pattern.state.transition) == 0 and pattern.is_accepting():", "            if pattern.is_accepting():"),
-  "shortest instead of longest match", "longest")
+  "shortest instead of longest match", "find_all/")
 V("C14", "balanced-ge0", "fire", (BAL, "            return self.depth > 0", "            return self.depth >= 0"), "accepts anything at depth 0", "Balanced.accept/table")
 V("C14", "balanced-no-decrement", "fire", (BAL, "            self.depth -= 1\n", "            self.depth -= 0\n"), "group never closes", "Balanced.accept/table")
 V("C14", "balanced-le0", "fire", (BAL, "            if self.depth < 0:\n                return False", "            if self.depth <= 0:\n                return False"),
   "closing parenthesis of the outermost group rejected", "Balanced.accept/table")
 V("C14", "attempts-inserted-front", "fire", (MATCHER, "fs.active_patterns.append(Pattern(idx, dfa))", "fs.active_patterns.insert(0, Pattern(idx, dfa))"),
-  "later starts are tried first", "find_all")
+  "later starts are tried first", "find_all/")
 V("C14", "follow-from-end-plus1", "fire", (SU, "starts_with(followed_by, tokens[p.end:])", "starts_with(followed_by, tokens[p.end + 1:])"),
   "follow-up pattern matched one token late", "follow-slice")
 V("C14", "header-range-start-start", "fire", (SU, "TokenRange(pattern.start, pattern.end)", "TokenRange(pattern.start, pattern.end - 1)"),
@@ -433,7 +433,7 @@ V("C14", "drain-stale-local", "fire", (MATCHER, """    for pattern in fs.active_
         if pattern.start < last_end:
             continue
         if pattern.is_accepting():
-            pattern.end = len(sequence)"""), "end read once before the loop", "drain loop")
+            pattern.end = len(sequence)"""), "end read once before the loop", "find_all/")
 
 # ------------------------------------------------------------------ C12
 V("C12", "check-open-bare", "fire", (CHK, "        code = _read_file(path)\n", "        with open(path) as f:\n            code = f.read()\n"),
